@@ -936,7 +936,12 @@ def _string_new(M, fr, n, a): return Str('')
 @reg(r'^std::string::String::len$|^core::str::<impl str>::len$')
 def _str_len(M, fr, n, a):
     s = as_str(M, a[0])
-    if isinstance(s, SymStr): raise Unsupported('len of opaque string')
+    if isinstance(s, SymStr):
+        # an opaque text (a formatted message, an uninterpreted function of something): its length is some number, the same each time it is asked
+        key = str(s.t)
+        d = M.__dict__.setdefault('_opaque_len', {})
+        if key not in d: d[key] = M.fresh_bv('len_of_opaque_text', 64)
+        return d[key]
     return len(s.b)
 @reg(r'^std::string::String::is_empty$|^core::str::<impl str>::is_empty$')
 def _str_is_empty(M, fr, n, a):
@@ -946,7 +951,13 @@ def _str_is_empty(M, fr, n, a):
 @reg(r'^std::string::String::push_str$')
 def _push_str(M, fr, n, a):
     d, s_ = as_str(M, a[0]), as_str(M, a[1])
-    if isinstance(d, SymStr) or isinstance(s_, SymStr): raise Unsupported('concatenation with an opaque (unmodelled format!) string')
+    if isinstance(d, SymStr):
+        # appending to an opaque text gives another opaque text
+        cnt = M.__dict__.setdefault('_opaque_cat', [0]); cnt[0] += 1
+        d.t = z3.BitVec('appended%d_%s' % (cnt[0], str(d.t)[:30]), d.t.size()) if is_sym(d.t) else d.t
+        if d.lower is not None and d.lower is not d: d.lower = None
+        return UNIT
+    if isinstance(s_, SymStr): raise Unsupported('concatenation with an opaque (unmodelled format!) string')
     d.b.extend(s_.b); return UNIT
 @reg(r'^std::string::String::push$')
 def _push_char(M, fr, n, a): as_str(M, a[0]).b.extend(encode_char(M, a[1])); return UNIT
@@ -1164,7 +1175,7 @@ def _is_char_boundary(M, fr, n, a):
     if i == 0 or i == len(s.b): return True
     if i > len(s.b): return False
     return (s.b[i] & 0xC0) != 0x80
-@reg(r'^(?:core|std)::char::methods::<impl char>::(is_ascii_digit|is_ascii_alphabetic|is_ascii_alphanumeric|is_ascii_hexdigit|is_ascii_uppercase|is_ascii_lowercase|is_ascii|is_digit|len_utf8|is_whitespace|is_ascii_whitespace|to_ascii_lowercase|to_ascii_uppercase|is_alphanumeric|is_alphabetic|is_numeric)$')
+@reg(r'^(?:core|std)::char::methods::<impl char>::(is_ascii_digit|is_ascii_alphabetic|is_ascii_alphanumeric|is_ascii_hexdigit|is_ascii_uppercase|is_ascii_lowercase|is_ascii|is_digit|len_utf8|len_utf16|is_whitespace|is_ascii_whitespace|to_ascii_lowercase|to_ascii_uppercase|is_alphanumeric|is_alphabetic|is_numeric)$')
 def _char_class(M, fr, n, a):
     op = n.rsplit('::', 1)[1]; c = simp(D(M, a[0]) if isinstance(a[0], Ref) else a[0])
     def rng(lo, hi): return (lo <= c <= hi) if not is_sym(c) else z3.And(z3.UGE(c, lo), z3.ULE(c, hi))
@@ -1185,6 +1196,9 @@ def _char_class(M, fr, n, a):
     if op == 'len_utf8':
         if not is_sym(c): return len(chr(c).encode())
         return [1, 2, 3, 4][M.choose([z3.ULT(c, 0x80), z3.And(z3.UGE(c, 0x80), z3.ULT(c, 0x800)), z3.And(z3.UGE(c, 0x800), z3.ULT(c, 0x10000)), z3.UGE(c, 0x10000)])]
+    if op == 'len_utf16':
+        if not is_sym(c): return 1 if c < 0x10000 else 2
+        return 1 if M.branch(z3.ULT(c, 0x10000)) else 2
     if op in ('is_ascii_whitespace',):
         return b_or(v_eq(c, 32), v_eq(c, 9), v_eq(c, 10), v_eq(c, 12), v_eq(c, 13))
     if op == 'is_whitespace':
@@ -1672,9 +1686,17 @@ def _str_strip(M, fr, n, a):
 def _string_mut(M, fr, n, a):
     s = as_str(M, a[0]); op = n.rsplit('::', 1)[1]
     if op == 'clear': s.b = []; return UNIT
-    if op == 'truncate':
+    if op == 'truncate' and not isinstance(s, SymStr):
         k = simp(a[1]); s.b = s.b[:k]; return UNIT
-    if isinstance(s, SymStr): raise Unsupported('String::' + op + ' on an opaque string')
+    if isinstance(s, SymStr):
+        if op == 'truncate':
+            # cutting an opaque text at a fixed byte: nothing happens when it is short enough; otherwise the byte is a character boundary or it is not (then String::truncate panics)
+            ln = _str_len(M, fr, 'std::string::String::len', [a[0]]); k = simp(a[1])
+            if M.branch(z3.ULE(ln, tobv(k, 64))): return UNIT
+            if not M.branch(M.fresh_bool('cut_is_char_boundary')): raise Panic('assertion failed: self.is_char_boundary(new_len)')
+            s.t = z3.BitVec('truncated_' + str(s.t)[:40], s.t.size()) if is_sym(s.t) else s.t
+            return UNIT
+        raise Unsupported('String::' + op + ' on an opaque string')
     if op == 'pop':
         if not s.b: return none()
         st, c = _char_at_end(M, s, len(s.b)); s.b = s.b[:st]; return some(c)
